@@ -152,6 +152,7 @@ func (vc *VC) run() {
 	}
 	vc.initPanicMode(entry)
 	vc.atomicInit(entry)
+	vc.ghostInit(entry)
 	vc.entry = entry.clone()
 	// preconditions
 	if vc.fi != nil {
